@@ -338,6 +338,17 @@ func oracleC20(s *Sim, y *Sys) {
 				s.Violate("C20.empty-chunk", pol, "%s: chunk seq %d carries no data point (%d groups)", u, a.Seq, a.Groups)
 			}
 		}
+		// the same goroutine wrote and then flushed: after its Flush has returned nil none of its own points
+		// is still buffered (it would have been left behind by a flush that ran before the write was taken)
+		for _, wf := range h.WriteFlushes {
+			res, _ := wf.Res.(*writeFlushRes)
+			if !wf.harvested || wf.Err != nil || res == nil || res.FlushErr != nil {
+				continue
+			}
+			if len(res.OwnStillBuffered) > 0 {
+				s.Violate("C20.flush-barrier", pol+":write-then-flush", "%s: op%d wrote %d points and then called Flush, which returned nil; State() right afterwards still shows %d of them in the buffer (last issued sequence number %d)", u, wf.ID, len(wf.Meta.(*writeRec).Points), len(res.OwnStillBuffered), res.LastSeq)
+			}
+		}
 		// barrier: Flush returned nil => every write that had returned before its invocation is in a chunk
 		// with seq <= LastIssuedSequenceNumber observed afterwards
 		for _, f := range h.Flushes {
@@ -403,7 +414,7 @@ func oracleC20(s *Sim, y *Sys) {
 			// a chunk is attributable to an explicit Flush/Close if it was written to the link
 			// while one of them was in progress (simulated time only moves between scheduler
 			// steps, so "in progress" is closed on both ends)
-			for _, f := range h.Flushes {
+			for _, f := range append(append([]*Op(nil), h.Flushes...), h.WriteFlushes...) {
 				if f.InvokeT <= a.SentAt && (!f.harvested || a.SentAt <= f.ReturnT) {
 					return true
 				}
@@ -518,7 +529,7 @@ func oracleC20SizeModel(s *Sim, h *upH) {
 	for _, w := range h.Writes {
 		tasks[w.Op.Task] = true
 	}
-	if len(tasks) != 1 || h.Spec.Policy != "size" || len(h.Flushes) > 1 || h.Spec.Size == 0 && false {
+	if len(tasks) != 1 || h.Spec.Policy != "size" || len(h.Flushes)+len(h.WriteFlushes) > 1 || h.Spec.Size == 0 && false {
 		return // the exact model is only stated for a single writer without explicit flushes (the final barrier flush is allowed)
 	}
 	s.Stat("c20.size-model-applied")
